@@ -61,13 +61,13 @@ Definition to_addr (b : bytes) : bytes := fit 20 b.
 (** big-endian bytes -> number ([big.Int.SetBytes]) *)
 Definition N_of_bytes (b : bytes) : N := fold_left (fun acc x => acc * 256 + Byte.to_N x) b 0.
 
-(** [sdk.Uint64ToBigEndian] *)
+(** [sdk.Uint64ToBigEndian] (bit operations: cheap under vm_compute) *)
 Fixpoint be_bytes (n : nat) (x : N) : bytes :=
   match n with
   | O => []
-  | S n' => be_bytes n' (x / 256) ++ [match Byte.of_N (x mod 256) with Some b => b | None => x00 end]
+  | S n' => be_bytes n' (N.shiftr x 8) ++ [match Byte.of_N (N.land x 255) with Some b => b | None => x00 end]
   end.
-Definition be64 (x : N) : bytes := be_bytes 8 (x mod two64).
+Definition be64 (x : N) : bytes := be_bytes 8 (N.land x 18446744073709551615).
 
 (** decimal rendering ([%d]) *)
 Fixpoint digits_of_uint (u : Decimal.uint) : bytes :=
@@ -108,13 +108,16 @@ Record header := {
 
 Definition hheight (h : header) : height := (h_rev h, h_num h).
 
+(** [a &&& b]: conjunction that does not evaluate [b] when [a] is false (vm_compute is call-by-value) *)
+Notation "a &&& b" := (if a then b else false) (at level 40, left associativity).
+
 Definition header_eqb (a b : header) : bool :=
-  (h_num a =? h_num b) && (h_rev a =? h_rev b) && bytes_eqb (h_root a) (h_root b)
-  && bytes_eqb (h_parent a) (h_parent b) && bytes_eqb (h_extra a) (h_extra b)
-  && bytes_eqb (h_coinbase a) (h_coinbase b) && bytes_eqb (h_diff a) (h_diff b)
-  && (h_gaslimit a =? h_gaslimit b) && (h_gasused a =? h_gasused b) && (h_time a =? h_time b)
-  && bytes_eqb (h_uncle a) (h_uncle b) && bytes_eqb (h_mix a) (h_mix b) && bytes_eqb (h_nonce a) (h_nonce b)
-  && bytes_eqb (h_txhash a) (h_txhash b) && bytes_eqb (h_receipt a) (h_receipt b) && bytes_eqb (h_bloom a) (h_bloom b).
+  (h_num a =? h_num b) &&& (h_rev a =? h_rev b) &&& bytes_eqb (h_root a) (h_root b)
+  &&& bytes_eqb (h_parent a) (h_parent b) &&& bytes_eqb (h_extra a) (h_extra b)
+  &&& bytes_eqb (h_coinbase a) (h_coinbase b) &&& bytes_eqb (h_diff a) (h_diff b)
+  &&& (h_gaslimit a =? h_gaslimit b) &&& (h_gasused a =? h_gasused b) &&& (h_time a =? h_time b)
+  &&& bytes_eqb (h_uncle a) (h_uncle b) &&& bytes_eqb (h_mix a) (h_mix b) &&& bytes_eqb (h_nonce a) (h_nonce b)
+  &&& bytes_eqb (h_txhash a) (h_txhash b) &&& bytes_eqb (h_receipt a) (h_receipt b) &&& bytes_eqb (h_bloom a) (h_bloom b).
 
 (** constants of bsc.go *)
 Definition extraVanity : N := 32.
@@ -162,7 +165,8 @@ Fixpoint ins_by {V} (lt : height -> height -> bool) (k : height) (v : V) (l : li
   end.
 
 Definition recent_lt (a b : height) : bool := bytes_ltb (recent_key a) (recent_key b).
-Definition cons_lt (a b : height) : bool := bytes_ltb (cons_key a) (cons_key b).
+(** byte order of the fixed-width big-endian keys = numeric order of (revision number, revision height) *)
+Definition cons_lt (a b : height) : bool := (fst a <? fst b) || ((fst a =? fst b) && (snd a <? snd b)).
 
 Definition set_signer (st : cstore) (k : height) (v : bytes) : cstore :=
   {| recents := ins_by recent_lt k v (del_key k (recents st)); pending := pending st; cons := cons st |}.
